@@ -488,13 +488,20 @@ func ruleR06_2(c *Check) {
 				r.Check(false, f, k.key("ValueStruct fields", w, cl), cl, "Value or Meta not set")
 				return true
 			}
-			mb, _ := unparen(meta).(*ast.BinaryExpr)
+			mb, _ := unparen(w.from(meta)).(*ast.BinaryExpr)
+			// every other bit of the entry's meta (delete, merge, discard-earlier, transaction bits) is
+			// carried over: the expression is exactly entry.meta with the pointer bit set / cleared
+			metaF := w.Field("badger.Entry.meta")
+			isBit := func(e ast.Expr) bool {
+				id, ok := unparen(e).(*ast.Ident)
+				return ok && w.Use(id) == bit
+			}
 			if inline == 1 {
-				okv := w.fieldOf(val) == w.Field("badger.Entry.Value") && mb != nil && mb.Op == token.AND_NOT && w.mentions(mb.Y, bit)
-				r.Check(okv, f, k.key("inline branch: value itself, pointer bit cleared", w, cl), cl, "inline branch stores "+short(w, val)+" with meta "+short(w, meta))
+				okv := w.fieldOf(val) == w.Field("badger.Entry.Value") && mb != nil && mb.Op == token.AND_NOT && isBit(mb.Y) && w.fieldOf(mb.X) == metaF
+				r.Check(okv, f, k.key("inline branch: value itself, pointer bit cleared", w, cl), cl, "inline branch stores "+short(w, val)+" with meta "+short(w, meta)+" (expected entry.meta &^ bitValuePointer: all other bits kept)")
 			} else {
-				okv := w.isCallTo(val, enc) && mb != nil && mb.Op == token.OR && w.mentions(mb.Y, bit)
-				r.Check(okv, f, k.key("pointer branch: encoded pointer, pointer bit set", w, cl), cl, "pointer branch stores "+short(w, val)+" with meta "+short(w, meta))
+				okv := w.isCallTo(val, enc) && mb != nil && mb.Op == token.OR && ((isBit(mb.Y) && w.fieldOf(mb.X) == metaF) || (isBit(mb.X) && w.fieldOf(mb.Y) == metaF))
+				r.Check(okv, f, k.key("pointer branch: encoded pointer, pointer bit set", w, cl), cl, "pointer branch stores "+short(w, val)+" with meta "+short(w, meta)+" (expected entry.meta | bitValuePointer: all other bits kept)")
 			}
 			return true
 		})
